@@ -21,6 +21,9 @@ type c11Case struct {
 	A []string `json:"a,omitempty"`
 	B []string `json:"b,omitempty"`
 	C []string `json:"c,omitempty"`
+	// Wrap: what surrounds the includes of each file: "" = <section>x…</section>, bare = nothing
+	// (the include is the first node of the file), tmpl = a <template> root
+	Wrap string `json:"wrap,omitempty"`
 	// slots: content / supply form / component / depth
 	Content string `json:"content,omitempty"`
 	Supply  string `json:"supply,omitempty"`
@@ -128,7 +131,13 @@ func (c *c11Case) Run(ctx *core.Ctx) {
 		files := Files{"s.vuego": `<div><slot></slot></div>`}
 		mk := func(edges []string) string {
 			var b strings.Builder
-			b.WriteString("<section>x")
+			switch c.Wrap {
+			case "bare":
+			case "tmpl":
+				b.WriteString("<template>")
+			default:
+				b.WriteString("<section>x")
+			}
 			for _, e := range edges {
 				t, mode, _ := strings.Cut(e, ":")
 				inc := `<template include="` + t + `.vuego"></template>`
@@ -147,7 +156,13 @@ func (c *c11Case) Run(ctx *core.Ctx) {
 					b.WriteString(`<template include="s.vuego"><template v-slot>` + inc + `</template></template>`)
 				}
 			}
-			b.WriteString("</section>")
+			switch c.Wrap {
+			case "bare":
+			case "tmpl":
+				b.WriteString("</template>")
+			default:
+				b.WriteString("</section>")
+			}
 			return b.String()
 		}
 		files["a.vuego"], files["b.vuego"], files["c.vuego"] = mk(c.A), mk(c.B), mk(c.C)
@@ -258,6 +273,9 @@ func cycleClass(c *c11Case) string {
 			ms = append(ms, m)
 		}
 	}
+	if c.Wrap != "" {
+		return c.Wrap + ":" + strings.Join(ms, "+")
+	}
 	return strings.Join(ms, "+")
 }
 
@@ -267,7 +285,7 @@ func init() {
 		Level:     "exploration",
 		CPUBudget: 15,
 		Rule: fmt.Sprintf("(1) %d directive positions (+ the value as root data) x %d Go values of every kind (scalars, NaN, nil and typed nils, maps with non-string keys, structs with unexported/embedded fields, func, chan, self-referential pointer, 1000-deep nesting), each through RenderString and Load+Render; ", len(c11Positions), len(wrongValues)) +
-			"(2) all include graphs over 3 files where each file includes <=2 targets in 6 modes (direct, v-if true/false, v-for, as plain slot content, as v-slot content): must return, with an error iff a cycle is reachable; (3) every token string up to the bound over a 20-token alphabet as template source (string / file / Vue.Render) and as front-matter. " +
+			"(2) all include graphs over 3 files where each file includes <=2 targets in 6 modes (direct, v-if true/false, v-for, as plain slot content, as v-slot content), the includes wrapped in an element, standing bare as the first nodes of the file, or inside a <template> root: must return, with an error iff a cycle is reachable; (3) every token string up to the bound over a 20-token alphabet as template source (string / file / Vue.Render) and as front-matter. " +
 			"oracle: the call returns - no panic (recovered per case), no fatal error or stack overflow (64 MiB stack cap, worker subprocess), no hang (CPU budget per case). non-trivial = all",
 		Bounds:      map[string]string{"quick": "graphs with <=1 edge per file in all modes plus 2 edges in {direct, vfor}; token strings of length <=3", "thorough": "graphs with <=1 edge per file in all 6 modes plus 2 edges in {direct, v-if, v-for, slot content}; token strings of length <=4"},
 		Assumptions: []string{"panics inside user-registered functions are the user's; none are registered here", "cyclic maps/slices (not JSON-like) are not generated"},
@@ -311,6 +329,10 @@ func init() {
 				for _, b := range opts {
 					for _, cc := range opts {
 						emit(&c11Case{Part: "graph", A: a, B: b, C: cc})
+						if len(a) == 1 && len(b) <= 1 && len(cc) <= 1 {
+							emit(&c11Case{Part: "graph", A: a, B: b, C: cc, Wrap: "bare"})
+							emit(&c11Case{Part: "graph", A: a, B: b, C: cc, Wrap: "tmpl"})
+						}
 					}
 				}
 			}
